@@ -1,6 +1,6 @@
 """C19 (value objects: clone, lists, tables, packets, aliasing) and C07 (stored values read back identical):
 CifValue.tla explored by TLC; every state's history, probes and transitions replayed into the library."""
-import json, os, collections, random
+import json, os, collections, random, re
 from vlib import *
 
 KIND = {"char": 0, "numb": 1, "list": 2, "table": 3, "na": 4, "unk": 5}
@@ -32,6 +32,39 @@ def obs_val(v):
     if k == "table":
         return {"k": "table", "e": sorted([[x[0], obs_val(x[1])] for x in v.get("e", [])], key=lambda e: e[0])}
     return {"k": k}
+
+
+NUMRE = re.compile(r"^([+-]?)(\d*)(?:\.(\d*))?(?:[eE]([+-]?\d+))?(?:\((\d+)\))?$")
+
+
+def numb_problem(v):
+    """A number value's fields (digits, su digits, scale, sign) must be what its text denotes - wherever the value has been
+    (cloned, stored, loaded).  Returns a description of the first inconsistent number inside dump v, or None."""
+    if not isinstance(v, dict):
+        return None
+    k = v.get("k")
+    if k == "numb" and v.get("dg") is not None:
+        m = NUMRE.match(v.get("t") or "")
+        if m:
+            sign, ip, fp, ex, su = m.groups()
+            digits = ((ip or "") + (fp or "")).lstrip("0") or "0"
+            scale = len(fp or "") - int(ex or 0)
+            got_d = (v.get("dg") or "").lstrip("0") or "0"
+            exp_su = None if su is None else (su.lstrip("0") or "0")
+            got_su = None if v.get("su") is None else ((v.get("su") or "").lstrip("0") or "0")
+            if got_d != digits or v.get("sc") != scale or got_su != exp_su or (digits != "0" and (v.get("sg", 1) < 0) != (sign == "-")):
+                return "number %r carries digits %r su %r scale %r sign %r" % (v.get("t"), v.get("dg"), v.get("su"), v.get("sc"), v.get("sg"))
+    elif k == "list":
+        for x in v.get("e", []):
+            r = numb_problem(x)
+            if r:
+                return r
+    elif k == "table":
+        for x in v.get("e", []):
+            r = numb_problem(x[1])
+            if r:
+                return r
+    return None
 
 
 def to_cmds(e):
@@ -75,6 +108,8 @@ def compare(e, o):
     if e["op"] == "value_dump":
         if obs_val(o.get("val")) != exp_val(e["val"]):
             d.append("value of %s is %s, specified %s" % (e["v"], json.dumps(obs_val(o.get("val")))[:200], json.dumps(exp_val(e["val"]))[:200]))
+        elif numb_problem(o.get("val")):
+            d.append("value of %s: %s" % (e["v"], numb_problem(o.get("val"))))
     elif f == "count" and e["rc"] == 0 and o.get("n") != e["n"]:
         d.append("count %s, specified %s" % (o.get("n"), e["n"]))
     elif f == "get_keys" and e["rc"] == 0 and sorted(o.get("keys", [])) != sorted(KEYC[k] for k in e["keys"]):
@@ -133,6 +168,10 @@ class VJob:
                 got, exp = obs_val(o.get("val")), exp_val(v)
             if got != exp:
                 d.append("final %s %s is %s, specified %s" % (kind, name, json.dumps(got)[:200], json.dumps(exp)[:200]))
+            else:
+                np_ = numb_problem(o.get("val")) if kind != "pk" else next((numb_problem(x) for n, x in o.get("pkt", []) if numb_problem(x)), None)
+                if np_:
+                    d.append("final %s %s: %s" % (kind, name, np_))
         if outs[-1].get("leak"):
             d.append("memory leaked (LeakSanitizer)")
         return d
@@ -172,9 +211,9 @@ def run_vjobs(binary, jobs, batch=60):
 
 def value_cfg(p):
     q = lambda xs: "{" + ", ".join('"%s"' % x for x in xs) + "}"
-    return ("SPECIFICATION Spec\nCONSTANTS\n SLOTS <- %s\n REFS <- %s\n TEXTS = %s\n KEYS = %s\n PNAMES = %s\n KINDS = %s\n MaxList = %d\n MaxEntries = %d\n MaxDepth = %d\n MaxHist = %d\n"
+    return ("SPECIFICATION Spec\nCONSTANTS\n SLOTS <- %s\n REFS <- %s\n TEXTS = %s\n NUMTEXTS = %s\n KEYS = %s\n PNAMES = %s\n KINDS = %s\n MaxList = %d\n MaxEntries = %d\n MaxDepth = %d\n MaxHist = %d\n"
             " CanonK <- MCCanonK\n FoldN <- MCFoldN\nVIEW View\nINVARIANT EmitState\nACTION_CONSTRAINT EmitEdge\nINVARIANT Model\nPROPERTY CloneEqual OthersIntact\nCHECK_DEADLOCK FALSE\n"
-            % (p["slots"], p["refs"], q(p["texts"]), q(p["keys"]), q(p["pnames"]), q(p["kinds"]), p["maxlist"], p["maxentries"], p["maxdepth"], p["maxhist"]))
+            % (p["slots"], p["refs"], q(p["texts"]), q(p.get("numtexts", [])), q(p["keys"]), q(p["pnames"]), q(p["kinds"]), p["maxlist"], p["maxentries"], p["maxdepth"], p["maxhist"]))
 
 
 def shrink_v(binary, job):
